@@ -225,6 +225,9 @@ JVSort(e) ==
 
 \* ------------------------------------------------------------------ C12 (versions built from canonical identifiers)
 JVBuilt(e) ==
+  \* a built version whose printed form exceeds MAX_LENGTH is not a parseable version: no round-trip obligation
+  IF Len(PrintVersion(e.val)) > MAX_LENGTH THEN Chk(e.print = PrintVersion(e.val), "C12:print")
+  ELSE
        Chk(e.print = PrintVersion(e.val), "C12:print")
   \cup Chk(e.re.out = "ok" /\ e.re.val = e.val, "C12:reparse-equal-five-fields")
   \cup Chk(e.print2 = e.print, "C12:fixed-point")
